@@ -85,6 +85,7 @@ package bcl
 //@ func (*lexer).emit
 //@   requires [C11] token_type_in_range: 0 <= t && t < tMAX && t != tERR
 //@   requires [C11] after_an_error_only_fail: g.lx_err ==> t == tFAIL
+//@   requires [C11] fail_only_after_an_error: t == tFAIL ==> g.lx_err
 //@   requires [C11] nothing_after_a_finalizer: !g.lx_fin
 //@   ensures [C08] token_position_is_its_absolute_end_offset: g.ev_sent_tokens.pos == l.posShift + l.pos && g.ev_sent_tokens.typ == t && g.ev_sent_tokens.val == old(l.input[l.start:l.pos])
 //@   ensures [C11] one_token_sent: g.ev_send_tokens == old(g.ev_send_tokens) + 1
